@@ -31,7 +31,9 @@ impl GameTime {
         // return a time slice.
         if base_time <= 0.0 {
             if increment > 0.0 {
-                (increment * MAX_USAGE).round() as u128
+                // the increment is only credited after the move has been made,
+                // so never plan to think for longer than what is left on the clock
+                (increment * MAX_USAGE).round().min(clock.max(0.0)) as u128
             } else {
                 NO_TIME
             }
